@@ -4,8 +4,8 @@ import json
 import os
 from framework import REPO, ROOT, LEAN
 
-TIE = ["Nsq.Tie.Meta"]
-PROPS = ["Nsq.Props.C06"]
+TIE = ["Nsq.Tie.Meta", "Nsq.Tie.MetaLoad"]
+PROPS = ["Nsq.Props.C06", "Nsq.Props.C06Load"]
 KEY_F6 = "deleted-object-still-listed"
 
 
@@ -41,6 +41,15 @@ def property_fails_on(op, impl_line, model_line):
         got = impl_line.split("file=")[1]
         if got not in ("-", want):
             return ("pause-ack-not-persisted", "%s was answered 200 but nsqd.dat has flag %s" % (op, got))
+    if w[0] == "load" and len(w) == 4:
+        # (round 6) the implementation's own answer against the document encoding/json decodes
+        if impl_line.startswith("ok") and (w[1] == "dir" or (w[1] == "bytes" and w[3] == "-")):
+            return ("corrupt-file-accepted", "LoadMetadata returned nil on a file that encoding/json rejects "
+                    "(hex %s): a truncated nsqd.dat would be loaded as a different state" % w[2][:200])
+        if impl_line == "refuse" and (w[1] == "absent" or (w[1] == "bytes" and w[3] != "-")):
+            return ("loadable-file-refused", "LoadMetadata refused a file that decodes to a document (hex %s)" % w[2][:200])
+    if w[0] == "reload" and impl_line in ("refuse", "newfail"):
+        return ("restart-failed", "the file PersistMetadata wrote right after LoadMetadata is not loadable")
     if w[0] == "idle" and impl_line.startswith("dat="):
         dat, mem = impl_line[4:].split(" mem=")
         if dat != mem:
@@ -50,18 +59,18 @@ def property_fails_on(op, impl_line, model_line):
     return None
 
 
-def run_harness(ctx, binp, label, env, timeout):
+def run_harness(ctx, binp, label, env, timeout, test="TestVerifMetaCorr", stream="meta"):
     outdir = os.path.join(ctx.work, label)
     os.makedirs(outdir, exist_ok=True)
     e = {"VERIF_SEED": ctx.seed, "VERIF_OUT": outdir}
     e.update(env)
-    rc, out = ctx.run_cmd([binp, "-test.run", "^TestVerifMetaCorr$", "-test.count=1", "-test.timeout=%ds" % timeout],
+    rc, out = ctx.run_cmd([binp, "-test.run", "^%s$" % test, "-test.count=1", "-test.timeout=%ds" % timeout],
                           timeout=timeout + 30, env=e)
     res = {"rc": rc, "out": out, "ops": [], "impl": [], "model": []}
-    p = os.path.join(outdir, "meta.ops")
+    p = os.path.join(outdir, stream + ".ops")
     if rc == 0 and os.path.exists(p):
         res["ops"] = open(p).read().splitlines()
-        res["impl"] = open(os.path.join(outdir, "meta.impl")).read().splitlines()
+        res["impl"] = open(os.path.join(outdir, stream + ".impl")).read().splitlines()
         _, mout = ctx.driver("meta", stdin_path=p)
         res["model"] = mout.splitlines()
     return res
@@ -190,6 +199,11 @@ def run(ctx):
         "Go memory model: the nsqd RWMutex makes a PersistMetadata call one critical section; topic locks make a "
         "channel-map read atomic (one model Step per critical section / system call)",
         "translator tools/go2lean kind `effseq` (order of tracked calls/assignments in a function body)",
+        "encoding/json as the decoder of nsqd.dat (Codec.parse): the load leg hands the Lean driver the document that the "
+        "harness's own json.Unmarshal into the real Metadata type produced; everything after the decode is modelled",
+        "translator tools/go2lean kinds `regex`, `stmts`, `skeleton`, `stmtseq` (Tie.MetaLoad)",
+        "harness harness/meta/load_test.go: in-process New + LoadMetadata on generated nsqd.dat contents, white-box read "
+        "of the live maps",
         "harness harness/meta/meta_test.go: real nsqd as a subprocess (New, LoadMetadata, PersistMetadata, Main), "
         "SIGKILL at verif points / random instants, white-box idle detection (no goroutine in Notify.func1 or "
         "PersistMetadata), concurrent observer of nsqd.dat",
@@ -198,6 +212,12 @@ def run(ctx):
         "disk faults (ENOSPC, EIO) are outside the quantifier: doPause* ignore PersistMetadata's error",
         "Quiet (idle) additionally requires that no topic deletion is half-way (Props.C06.Quiet)",
         "the per-topic read of GetMetadata (IsPaused, then the channel map) is one model step",
+        "start_load_exact_partial: every document the daemon wrote has unique valid non-ephemeral names (names enter the "
+        "maps only through IsValid...Name-guarded call sites; the unguarded source is the channel list a nsqlookupd "
+        "returns to GetTopic) - start_load_exact_false shows an invalid name does not survive a restart",
+        "pause_ack_under_faults_partial: the persist succeeded (pause_ack_under_faults_false: rename fails, answer 200)",
+        "truncated_file_refused: encoding/json rejects the prefix (checked on the real decoder for every strict prefix "
+        "of documents written by PersistMetadata)",
     ]
     ctx.rule = ("correspondence: generated client scripts (create/delete/pause of persisted and #ephemeral topics and "
                 "channels) against a real daemon subprocess with SIGKILL at the k-th visit of each of 9 verif points, "
@@ -205,7 +225,13 @@ def run(ctx):
                 "one case = one script line with the implementation's answer, non-trivial when the answer is not a "
                 "404; the Lean driver replays every line (exact answers at idle points, acceptor for the state loaded "
                 "after a kill); oracles: nsqd.dat always parses (concurrent observer), restart succeeds, idle file = "
-                "live state, pause answer => file has the flag, second instance refused")
+                "live state, pause answer => file has the flag, second instance refused; load leg (in-process): generated "
+                "nsqd.dat contents (hostile/duplicate/ephemeral/over-long names, odd JSON shapes, wrong types, null, empty, "
+                "garbage, legacy line format, every strict prefix of persisted documents, nsqd.dat a directory, absent) "
+                "through the real New+LoadMetadata, then PersistMetadata+Exit+New+LoadMetadata; the driver replays "
+                "Model.MetaLoad on the decoded document; oracles: loaded names valid, error iff encoding/json rejects, "
+                "prefixes refused, refused start touches nothing, load-persist-load fixed point, persist error returned "
+                "and nsqd.dat untouched when rename/open fails, New fails on a missing or held data path")
     gen_ok, _ = ctx.gen("meta_facts")
     if not gen_ok:
         try:
@@ -220,7 +246,7 @@ def run(ctx):
         ctx.leanchecker(PROPS)
     corr_broken = []
     ctx.build_driver("meta")
-    binp = ctx.go_test_binary("nsqd", ["meta/meta_test.go"], "meta")
+    binp = ctx.go_test_binary("nsqd", ["meta/meta_test.go", "meta/load_test.go"], "meta")
     if not binp:
         ctx.broken_ties.append("harness meta/meta_test.go does not compile against the current tree")
         corr_broken.append("harness build")
@@ -243,6 +269,16 @@ def run(ctx):
         judge(ctx, res, "generated", corr_broken)
         for x in list(zip(res["ops"], res["impl"]))[1:7]:
             ctx.add_sample({"op": x[0], "impl": x[1]})
+        # round 6: LoadMetadata on every file content, persist error returns, dirlock (in-process, Model.MetaLoad)
+        res = run_harness(ctx, binp, "load", {"VERIF_LOAD_N": ctx.budget(60, 1500), "VERIF_LOAD_CUTSTEP": 1}, ctx.budget(120, 600),
+                          test="TestVerifMetaLoad", stream="metaload")
+        judge(ctx, res, "load", corr_broken)
+        for l in res["out"].splitlines():
+            if l.startswith("OBSERVATION fault-rename"):
+                ctx.corr["observation_persist_fault"] = l
+                ctx.notes.append("observation (Props.C06Load.pause_ack_under_faults_false; outside the quantifier): " + l[:400])
+        for x in [y for y in zip(res["ops"], res["impl"]) if y[1].startswith("ok mem=x")][:3]:
+            ctx.add_sample({"op": x[0][:300], "impl": x[1][:300]})
         second_instance_binary(ctx, corr_broken)
         # observation (never a violation): documents that are a per-topic cut but not a global cut, on the real code
         rc, out = ctx.run_cmd([binp, "-test.run", "^TestVerifMetaCutObservation$", "-test.count=1", "-test.timeout=120s"],
